@@ -290,6 +290,7 @@ func refSweep(r *Run, rule string, paths []Path, docs []docEntry, cfgs []sweepCf
 		var local [40 * 16 * 2]bool
 		outcomes := map[string]int64{}
 		text := p.String()
+		r.Note(i, text)
 		ej := pathJSON(p)
 		shape := shapeOf(p)
 		for di, d := range docs {
